@@ -418,3 +418,36 @@ PROPS["C13"] = dict(
     prereq_note=["C14 header codec"],
     outside=["chains longer than 4 entries; mandatory data longer than 8 bytes; PDUs longer than 5..6 bytes on this path", "total-length / CRC semantics with extensions beyond what the crate's own sender and receiver agree on"],
 )
+
+PROPS["C19"] = dict(
+    claim="Bounded model checking of the peek function against the real senders on the compiled code: for every packet written by encap / encap_frag / encap_ext "
+          "(PDU <= 6, every label kind and value, every fragment id, sender re-use state arbitrary so that substituted labels occur, chains of 1..2 extensions), presented "
+          "alone and followed by arbitrary bytes, get_label_or_frag_id returns the fragment id for intermediate / end packets, the written label for start / complete packets "
+          "(also with extensions) and the re-use error when the label was replaced. decap reports the same label field / files the context under the same fragment id by the "
+          "receiver lemmas (rx.rs, c13), which are stated on the same packet layout.",
+    note="Trusted: Kani/CBMC/CaDiCaL. Agreement with decap is by transitivity through the packet layout (spec.rs) shared with the receiver lemmas, which this check runs for the complete and first kinds.",
+    harnesses=[H("c19::peek_encap", bounds="PDU <= 6, buffer <= 28, any label / protocol type / sender state; packet alone and with arbitrary tail", unwind=8, cost=25),
+               H("c19::peek_encap_frag", bounds="PDU <= 6, buffer <= 28, every ContextFrag; alone and with tail", unwind=8, cost=15),
+               H("c19::peek_encap_ext_o2", bounds="one optional 2-byte extension; PDU <= 6, buffer <= 40", unwind=10, cost=80, timeout=900),
+               H("c19::peek_encap_ext_m3_o0", bounds="mandatory(3) + optional(0) chain; PDU <= 6, buffer <= 40", unwind=10, cost=120, timeout=900, mem_gb=8),
+               T("c19::twin_peek_encap", cost=10)] + rx_members(["complete_free", "first_empty", "end_match", "inter_match"], whole_family=False) + PREREQ_HDR,
+    functions=["dvb_gse_rust::gse_decap::Decapsulator::get_label_or_frag_id", "dvb_gse_rust::gse_decap::read_gse_header"] + ENCAP_FNS,
+    assumptions=COMMON_ASSUME + [ENC_STATE_INV],
+    outside=["packets longer than 28 (40) bytes; chains longer than 2 on this check (the label precedes the chain, so the chain length does not move it)"],
+)
+
+PROPS["C20"] = dict(
+    claim="Bounded model checking of the four utils packet structs on the compiled code: for every well-formed description (all label kinds and values, fragment ids, protocol "
+          "types, total lengths, CRC values, payloads of 0..=8 bytes) parse(generate(x)) == x, the generated bytes are the standard's layout of exactly those fields, they are "
+          "byte for byte what the real encap (complete) / encap_frag (intermediate, end) write for the same fields, and — being that layout — they are accepted by decap "
+          "with the same field values by the receiver lemmas.",
+    note="Trusted: Kani/CBMC/CaDiCaL; spec.rs::layout. First-fragment equality with encap goes through the layout (c06::encap_bytes asserts the same fields at the same offsets). parse panics on padding headers by design of the helper; ill-formed descriptions are excluded by the property.",
+    harnesses=[H("c20::complete_roundtrip_and_codec", bounds="payload <= 8, all fields symbolic; compared with encap output at a symbolic index", unwind=10, cost=40),
+               H("c20::first_roundtrip", bounds="payload <= 8, all fields symbolic", unwind=10, cost=20),
+               H("c20::continuation_roundtrip_and_codec", bounds="payload <= 8, all fields symbolic; compared with encap_frag output at a symbolic index", unwind=10, cost=40),
+               H("c06::encap_bytes", bounds=BYTE_TIER + " (first-fragment field offsets)", unwind=8, cost=30, timeout=600),
+               T("c20::twin_complete", cost=2)] + rx_members(["complete_free", "first_empty", "end_match", "inter_match"], whole_family=False) + PREREQ_HDR,
+    functions=["dvb_gse_rust::utils::{GseCompletePacket,GseFirstFragPacket,GseIntermediatePacket,GseEndFragPacket}::{generate,parse}"] + ENCAP_FNS[:2],
+    assumptions=COMMON_ASSUME + ["gse_len consistent with the fields (the property's well-formedness premise)"],
+    outside=["payloads longer than 8 bytes (the serialisers copy the payload with one copy_from_slice; offsets do not depend on its length beyond the header)"],
+)
